@@ -146,6 +146,15 @@ class ForOfIterator:
         return value, False
 
 
+class Clock:
+    """Start of the evaluation in progress. One Clock is shared by all interpreters of a
+    context, so that an object made during an earlier evaluation (a regular expression polls
+    the clock of the interpreter that created it) is timed by the evaluation that uses it."""
+
+    def __init__(self) -> None:
+        self.start_time: Optional[float] = None
+
+
 class VM:
     """JavaScript virtual machine."""
 
@@ -166,7 +175,7 @@ class VM:
         self.call_stack: List[CallFrame] = []
         self.globals: Dict[str, JSValue] = {}
 
-        self.start_time: Optional[float] = None
+        self.clock = Clock()
         self.instruction_count = 0
 
         # Exception handling
@@ -177,6 +186,15 @@ class VM:
         self._native_bases: List[int] = []
         # native nesting depth inherited from the VM that started this one (nested eval)
         self.native_depth_offset = 0
+
+    @property
+    def start_time(self) -> Optional[float]:
+        """When the evaluation this interpreter works for started (see Clock)."""
+        return self.clock.start_time
+
+    @start_time.setter
+    def start_time(self, value: Optional[float]) -> None:
+        self.clock.start_time = value
 
     def run(self, compiled: CompiledFunction) -> JSValue:
         """Run compiled bytecode and return result."""
